@@ -27,11 +27,13 @@ type event struct {
 type hcase struct {
 	id      string
 	log     []uint64
-	final   string // "?" when unknown
+	logKV   map[uint64][2]uint64 // key, value of every log entry
+	final   string               // "?" when unknown
 	smcheck string
 	expBad  bool // hand-written negative case: both checkers must reject it
 	nev     int  // number of events when the case was recorded (-1 = not given)
-	alien   int  // log entries that are not operations of this history (dropped)
+	synth   int  // log entries without an invocation in the history (invocation synthesized)
+	differ  int  // log entries whose command differs from the client's invocation
 	events  []event
 }
 
@@ -41,18 +43,26 @@ func parseCase(line string) (*hcase, error) {
 	if len(hf) < 2 || hf[1] != "HIST" {
 		return nil, fmt.Errorf("bad case header")
 	}
-	c := &hcase{id: hf[0], final: "?", smcheck: "ok", nev: -1}
+	c := &hcase{id: hf[0], final: "?", smcheck: "ok", nev: -1, logKV: map[uint64][2]uint64{}}
 	for _, f := range hf[2:] {
 		k, v, _ := strings.Cut(f, "=")
 		switch k {
 		case "log":
 			if v != "-" && v != "" {
 				for _, x := range strings.Split(v, ",") {
-					n, err := strconv.ParseUint(x, 10, 64)
-					if err != nil {
-						return nil, err
+					t := strings.Split(x, ":")
+					if len(t) != 3 {
+						return nil, fmt.Errorf("bad log entry %q", x)
 					}
-					c.log = append(c.log, n)
+					var n [3]uint64
+					for i := range t {
+						var err error
+						if n[i], err = strconv.ParseUint(t[i], 10, 64); err != nil {
+							return nil, err
+						}
+					}
+					c.log = append(c.log, n[0])
+					c.logKV[n[0]] = [2]uint64{n[1], n[2]}
 				}
 			}
 		case "final":
@@ -99,29 +109,39 @@ func parseCase(line string) (*hcase, error) {
 	return c, nil
 }
 
-// normalise makes every sub-sequence of a recorded case a runnable case (the
-// shrinker of bin/check removes events): log entries whose operation is no longer
-// in the history are dropped, and the recorded final state is only meaningful for
-// the complete history.
+// normalise makes every sub-sequence of a recorded case a runnable case that is
+// at least as linearizable as the whole (the shrinker of bin/check removes
+// events): a log entry whose invocation is no longer in the history is treated as
+// the write of a client that invoked it before everything else and never got an
+// answer (its Inv is put in front, in log order). The recorded final state is only
+// meaningful for the complete history.
 func (c *hcase) normalise() {
-	inv := map[uint64]bool{}
+	inv := map[uint64]event{}
 	for _, e := range c.events {
 		if e.inv {
-			inv[e.id] = true
+			if _, ok := inv[e.id]; !ok {
+				inv[e.id] = e
+			}
 		}
 	}
-	var log []uint64
+	var front []event
+	done := map[uint64]bool{}
 	for _, id := range c.log {
-		if inv[id] {
-			log = append(log, id)
-		} else {
-			c.alien++
+		kv := c.logKV[id]
+		if e, ok := inv[id]; ok {
+			if !e.write || e.key != kv[0] || e.val != kv[1] {
+				c.differ++
+			}
+		} else if !done[id] {
+			done[id] = true
+			c.synth++
+			front = append(front, event{inv: true, id: id, write: true, key: kv[0], val: kv[1]})
 		}
 	}
-	c.log = log
 	if c.nev >= 0 && c.nev != len(c.events) {
 		c.final = "?"
 	}
+	c.events = append(front, c.events...)
 }
 
 type codeTable struct{ completed, timeout, dropped, terminated uint64 }
